@@ -148,6 +148,14 @@ func C10Fonts() []*Font {
 		f = NewFont("c10:info numbers", notdef(), NewGlyph("A", 1, 0, 0))
 		f.Info.ItalicAngle, f.Info.UnderlinePosition, f.Info.UnderlineThickness = -1e-7, 1e21, 1.0/3
 		out = append(out, f)
+		f = NewFont("c10:matrix all zero", notdef(), NewGlyph("A", 1, 0, 0))
+		f.FontMatrix = [6]float64{}
+		f.FontMatrixText = [6]string{"0", "0", "0", "0", "0", "0"}
+		out = append(out, f)
+		f = NewFont("c10:matrix zero scale, translation only", notdef(), NewGlyph("A", 1, 0, 0))
+		f.FontMatrix = [6]float64{0, 0, 0, 0, 3, -4}
+		f.FontMatrixText = [6]string{"0", "0", "0", "0", "3", "-4"}
+		out = append(out, f)
 		f = NewFont("c10:matrix odd", notdef(), NewGlyph("A", 1, 0, 0))
 		f.FontMatrix = [6]float64{1e-7, 0.5, -0.25, 1e21, 3, -4}
 		f.FontMatrixText = [6]string{"0.0000001", "0.5", "-0.25", "1000000000000000000000.0", "3", "-4"}
